@@ -104,8 +104,24 @@ def expected_linear_shapes(spec, n_in, n_out):
     return shapes
 
 
+def _mode_scale():
+    import torch
+
+    class ModeScale(torch.nn.Module):
+        """A parameter-free layer that behaves differently in training and in inference mode (like dropout or batch
+        normalisation): identity while training, halves its input in eval mode."""
+
+        def forward(self, x):
+            return x if self.training else 0.5 * x
+
+    return ModeScale()
+
+
 def _act_module(name):
     import torch
+
+    if name == "mode_scale":
+        return _mode_scale()
 
     return {
         "leaky_relu": torch.nn.LeakyReLU,
